@@ -32,9 +32,9 @@ func (s *scriptFS) ReadFile(p string) (string, error, error) {
 // the scripted world: per path a status, a key and contents
 type simFile struct {
 	exists   bool
-	contents int   // contents id; the text is "c<id>"
-	key      [6]int64 // inode,size,sec,nsec,mode,uid
-	unusable bool  // ModKey answers modKeyUnusable
+	contents int           // contents id; the text is "c<id>"
+	key      [6]int64      // inode,size,sec,nsec,mode,uid
+	unusable bool          // ModKey answers modKeyUnusable
 	readErr  syscall.Errno // if != 0 ReadFile fails with it although the file exists
 }
 
@@ -97,7 +97,7 @@ func streamFSCache(seed uint64, n int, cf *CoqFile) *Stats {
 		caches := cache.MakeCacheSet()
 		steps := r.Range(2, 14)
 		var stepStrs []string
-		sound := true          // does the history satisfy "mod key changes when contents change"?
+		sound := true // does the history satisfy "mod key changes when contents change"?
 		type seenKey struct {
 			p int
 			k [6]int64
